@@ -21,7 +21,7 @@ type reachOpts struct {
 
 type reachResult struct {
 	Funcs      map[*ssa.Function]bool
-	Unresolved int // dynamic calls through function values encountered
+	Unresolved int                          // dynamic calls through function values encountered
 	External   map[string][]ssa.Instruction // callee name (outside module) -> call sites
 }
 
